@@ -163,7 +163,7 @@ def hash_constants_rule(facts):
             a, b = list(got), list(want)
             extra = [x for x in a if x not in b or a.count(x) > b.count(x)]
             missing = [x for x in b if x not in a or b.count(x) > a.count(x)]
-            out.append(ob("layout.hash", key, fn["pat"], "violated", "literals of %s differ from the published definition: unexpected %s, missing %s: hashes no longer match other implementations (sketches stop being mergeable across languages)" % (name, sorted(set(extra))[:4], sorted(set(missing))[:4]), fn["qname"]))
+            out.append(ob("layout.hash", key, fn["pat"], "violated", "literals of %s differ from the published definition: unexpected %s, missing %s: hashes no longer match other implementations (sketches stop being mergeable across languages)" % (name, sorted(set(extra), key=str)[:4], sorted(set(missing), key=str)[:4]), fn["qname"]))
     return out
 
 
